@@ -38,7 +38,8 @@ CHECKS = {
               "keyvalue.FS over a plain map store, mount.FS (root + mount at a + nested mount at a/b), Sub(mem,a) and Sub(mount,a/b). After every step, successful or failed, on every "
               "constituent FS: root exists and is a directory; for every path of the depth-4 closure (121 paths) that Stat or Open accepts the parent is a directory that lists it; every "
               "listed entry can be Stat'ed and opened with agreeing kinds; no duplicates; every call returned within the watchdog; (plain store) every stored key is reachable by listings. "
-              "non-trivial = history with a successful rename/remove of a directory or an operation whose path runs through a regular file"),
+              "Handle steps (hopen/hwrite/htrunc/hchmod/hclose on 2 slots) keep handles open across later namespace operations, a third of the steps then aim at the open handle's path or its directory; the stale legs build histories around one handle that outlives its path. "
+              "non-trivial = history with a successful rename/remove of a directory or an operation whose path runs through a regular file; every stale case"),
         assumptions=["names {a,b,c}, depth <= 4", "for Sub views removing/renaming the view's root is not generated (it legitimately removes the base directory of the parent)",
                      "termination observed as: returned within a 10 s watchdog, confirmed by re-running the history alone in a fresh process"],
         legs=[
@@ -47,6 +48,8 @@ CHECKS = {
             dict(name="mount", run="^TestMount$", quick=200, thorough=1000, shards=3),
             dict(name="submem", run="^TestSubMem$", quick=100, thorough=600, shards=2),
             dict(name="submount", run="^TestSubMount$", quick=100, thorough=600, shards=2),
+            dict(name="stale-mem", run="^TestStaleMem$", quick=400, thorough=4000, shards=2),
+            dict(name="stale-kvplain", run="^TestStaleKVPlain$", quick=300, thorough=3000, shards=2),
         ],
     ),
     "C05": dict(
